@@ -290,3 +290,7 @@ def s_next_map(a, b, v):
     g = (k * 2 for k in (5, 6, 7))
     h = next(g)
     return np.array([first, second] + m + [head, rest, h, sum(g)])
+
+
+def s_diff(a, b, v):
+    return np.hstack([np.diff(a), np.diff(b[:1]), np.array([np.sum(np.diff(b))])])
